@@ -288,4 +288,28 @@ theorem solve_ordered_of_disjoint {X1 X2 : Approx F} {r1 r2 : ℝ}
       exact EReal.coe_lt_coe_iff.1 this
     rw [min_eq_right (le_of_lt this), max_eq_left (le_of_lt this)]; exact ⟨h1, h2⟩
 
+
+/-- **the two intervals are returned in ascending order of their lower bounds**, whatever the coefficients: the second one's
+    lower end is never below the first one's -/
+theorem solve_lows_ascending {A B C X1 X2 : Approx F} (h : Approx.solveQuadratic A B C = some (X1, X2))
+    (hn1 : ¬ nan X1.low) (hn2 : ¬ nan X2.low) : val X1.low ≤ val X2.low := by
+  obtain ⟨_, _, h3⟩ := solve_eq h
+  by_cases hs : ((rawRoots A B C).1.low >. (rawRoots A B C).2.low) = true
+  · rw [if_pos hs] at h3
+    simp only [Prod.mk.injEq] at h3
+    obtain ⟨e1, e2⟩ := h3
+    rw [e1] at hn1 ⊢
+    rw [e2] at hn2 ⊢
+    have := (lt_iff _ _ hn1 hn2).1 hs
+    exact le_of_lt this
+  · rw [if_neg hs] at h3
+    have e1 : X1 = (rawRoots A B C).1 := by rw [← h3]
+    have e2 : X2 = (rawRoots A B C).2 := by rw [← h3]
+    rw [e1] at hn1 ⊢
+    rw [e2] at hn2 ⊢
+    have hnot : ¬ (val (rawRoots A B C).2.low < val (rawRoots A B C).1.low) := by
+      intro hlt
+      exact hs ((lt_iff _ _ hn2 hn1).2 hlt)
+    exact not_lt.1 hnot
+
 end G3d.C17
